@@ -72,81 +72,279 @@ func runErrflow(c *Ctx) {
 	}
 
 	// ---------------- E1: Result typestate
-	for _, f := range p.ArgFuncs() {
-		core.Instrs(f, func(in ssa.Instruction) {
-			al, ok := in.(*ssa.Alloc)
-			if !ok || core.NamedOf(al.Type()) != "Result" {
-				return
+	// A Result is *consumed* where its outputs are read. Every consumption must be dominated by Err()==nil on that
+	// Result — in the function that reads, or, when the Result was handed to an in-module function, at the hand-over
+	// (checked before the call) or inside the callee (checked before it reads).
+	type resUse struct {
+		in     ssa.Instruction
+		kind   string // "out" | "handon"
+		callee *ssa.Function
+		arg    int
+	}
+	argIndex := func(ci ssa.CallInstruction, v ssa.Value) int {
+		for i, a := range ci.Common().Args {
+			if a == v {
+				return i
 			}
-			// a Result variable that receives the result of a call returning Result
-			fromCall := false
-			var origin string
-			for _, ref := range *al.Referrers() {
-				if st, ok := ref.(*ssa.Store); ok && st.Addr == al {
-					if cl, ok := st.Val.(*ssa.Call); ok {
-						if cal := cl.Common().StaticCallee(); cal != nil && p.InTarget(cal) && returnsResult(cal) {
-							fromCall = true
-							origin = core.FuncName(cal)
+		}
+		return -1
+	}
+	usesOfVal := func(v ssa.Value) []resUse {
+		var out []resUse
+		for _, use := range core.Users(v) {
+			switch w := use.(type) {
+			case ssa.CallInstruction:
+				cal := w.Common().StaticCallee()
+				if cal == errMethod {
+					continue
+				}
+				idx := -1
+				for i, a := range w.Common().Args {
+					for _, sv := range core.Sources(a) {
+						if sv == v {
+							idx = i
 						}
+					}
+					if a == v {
+						idx = i
+					}
+				}
+				out = append(out, resUse{w, "handon", cal, idx})
+			case *ssa.Field:
+				if fieldName2(w) == "out" {
+					out = append(out, resUse{w, "out", nil, -1})
+				}
+			}
+		}
+		return out
+	}
+	usesOfLoc := func(al *ssa.Alloc) []resUse {
+		var out []resUse
+		for _, ref := range *al.Referrers() {
+			switch u := ref.(type) {
+			case *ssa.FieldAddr:
+				if fr, _ := core.AsFieldAddr(u); fr.Field == "out" {
+					out = append(out, resUse{u, "out", nil, -1})
+				}
+			case *ssa.UnOp:
+				out = append(out, usesOfVal(u)...)
+			case ssa.CallInstruction:
+				// the address itself handed on (pointer receiver methods other than Err)
+				if cal := u.Common().StaticCallee(); cal != nil && cal != errMethod && p.InTarget(cal) {
+					out = append(out, resUse{u, "handon", cal, argIndex(u, al)})
+				}
+			}
+		}
+		return out
+	}
+	checkedAt := func(al *ssa.Alloc, b *ssa.BasicBlock) bool {
+		lits := core.Lits(core.Guards(b))
+		for _, ref := range *al.Referrers() {
+			if cl, ok := ref.(*ssa.Call); ok && cl.Common().StaticCallee() == errMethod {
+				if nilCheckLit(lits, cl, true) {
+					return true
+				}
+			}
+		}
+		return false
+	}
+	// calleeGuards: g is error-faithful for its Result parameter idx — it returns an error, a nil error is returned
+	// only where the Result is known to carry none (its own Err()==nil check, or the nil error of a nested faithful
+	// callee the Result was handed to), and it changes no state (stores outside fresh locals, executions) before that
+	// is known. Merely reading the outputs is free: the caller discards them when it sees the error (rule E2).
+	var calleeGuards func(g *ssa.Function, idx int, d int) bool
+	calleeGuards = func(g *ssa.Function, idx int, d int) bool {
+		if g == nil || !p.InTarget(g) || len(g.Blocks) == 0 || idx < 0 || idx >= len(g.Params) || d > 3 {
+			return false
+		}
+		prm := g.Params[idx]
+		if core.NamedOf(prm.Type()) != "Result" {
+			return false
+		}
+		res := g.Signature.Results()
+		if res.Len() == 0 || !isErrorType(res.At(res.Len()-1).Type()) {
+			return false
+		}
+		var spill *ssa.Alloc
+		for _, ref := range *prm.Referrers() {
+			if st, ok := ref.(*ssa.Store); ok && st.Val == ssa.Value(prm) {
+				if al, ok := st.Addr.(*ssa.Alloc); ok {
+					spill = al
+				}
+			}
+		}
+		isOwnErr := func(v ssa.Value) bool {
+			cl, ok := v.(*ssa.Call)
+			return ok && cl.Common().StaticCallee() == errMethod && spill != nil && len(cl.Common().Args) > 0 && cl.Common().Args[0] == ssa.Value(spill)
+		}
+		// error result of a nested faithful callee that received this Result
+		isNestedErr := func(v ssa.Value) bool {
+			var cl *ssa.Call
+			switch x := v.(type) {
+			case *ssa.Call:
+				cl = x
+			case *ssa.Extract:
+				cl, _ = x.Tuple.(*ssa.Call)
+			}
+			if cl == nil || !isErrorType(v.Type()) {
+				return false
+			}
+			h := cl.Common().StaticCallee()
+			for j, a := range cl.Common().Args {
+				for _, sv := range core.Sources(a) {
+					if sv == ssa.Value(prm) {
+						return calleeGuards(h, j, d+1)
+					}
+					if ld, ok := sv.(*ssa.UnOp); ok && spill != nil && ld.X == ssa.Value(spill) {
+						return calleeGuards(h, j, d+1)
 					}
 				}
 			}
-			if !fromCall {
-				return
-			}
-			// Err() calls on it
-			var errCalls []*ssa.Call
-			for _, ref := range *al.Referrers() {
-				if cl, ok := ref.(*ssa.Call); ok && cl.Common().StaticCallee() == errMethod {
-					errCalls = append(errCalls, cl)
-				}
-			}
-			checked := func(b *ssa.BasicBlock) bool {
-				lits := core.Lits(core.Guards(b))
-				for _, e := range errCalls {
-					if nilCheckLit(lits, e, true) {
+			return false
+		}
+		known := func(b *ssa.BasicBlock) bool {
+			for _, l := range core.Lits(core.Guards(b)) {
+				if l.Kind == "cmp" && l.Op == token.EQL && l.Pol && (core.IsNilConst(l.X) || core.IsNilConst(l.Y)) {
+					v := l.X
+					if core.IsNilConst(v) {
+						v = l.Y
+					}
+					if isOwnErr(v) || isNestedErr(v) {
 						return true
 					}
 				}
-				return false
 			}
-			n := 0
-			for _, ref := range *al.Referrers() {
-				switch u := ref.(type) {
-				case *ssa.FieldAddr:
-					fr, _ := core.AsFieldAddr(u)
-					if fr.Field != "out" {
-						continue
-					}
-					n++
-					c.R.Add("ERRFLOW-E1", fmt.Sprintf("%s|result of %s|read .out#%d", core.FuncName(f), origin, n), core.FuncName(f), p.InstrPos(u), checked(u.Block()),
-						"outputs of a Result are read only where Err()==nil on that Result dominates", ternary(checked(u.Block()), "dominated by Err()==nil", "no dominating Err()==nil check"))
-				case *ssa.UnOp:
-					// load of the whole Result: look at where the loaded value goes
-					for _, use := range core.Users(u) {
-						switch w := use.(type) {
-						case *ssa.Return:
-							// returning it unchanged is exempt
-						case ssa.CallInstruction:
-							cal := w.Common().StaticCallee()
-							n++
-							nm := "(dynamic)"
-							if cal != nil {
-								nm = core.FuncName(cal)
+			return false
+		}
+		for _, r := range core.Returns(g) {
+			for _, e := range core.ReturnOperand(r, len(r.Results)-1) {
+				for _, sv := range core.Sources(e) {
+					switch {
+					case isOwnErr(sv) || isNestedErr(sv):
+					case nilCheckLit(core.Lits(core.Guards(r.Block())), sv, false):
+					case func() bool {
+						// a field of the Result itself (`return …, r.buildErr` under `r.buildErr != nil`): the same
+						// location, re-read
+						if _, isF := core.AsFieldLoad(sv); !isF {
+							return false
+						}
+						for _, l := range core.Lits(core.Guards(r.Block())) {
+							if l.Kind == "cmp" && l.Op == token.EQL && !l.Pol {
+								if (core.IsNilConst(l.Y) && core.Path(l.X) == core.Path(sv)) || (core.IsNilConst(l.X) && core.Path(l.Y) == core.Path(sv)) {
+									return true
+								}
 							}
-							c.R.Add("ERRFLOW-E1", fmt.Sprintf("%s|result of %s|passed to %s", core.FuncName(f), origin, nm), core.FuncName(f), p.InstrPos(w), checked(w.Block()),
-								"a Result is handed on (output mapper, adapters, value-set loaders) only where Err()==nil on it dominates", ternary(checked(w.Block()), "dominated by Err()==nil", "no dominating Err()==nil check"))
-						case *ssa.Field:
-							if fieldName2(w) == "out" {
-								n++
-								c.R.Add("ERRFLOW-E1", fmt.Sprintf("%s|result of %s|read .out#%d", core.FuncName(f), origin, n), core.FuncName(f), p.InstrPos(w), checked(w.Block()),
-									"outputs of a Result are read only where Err()==nil on that Result dominates", ternary(checked(w.Block()), "dominated by Err()==nil", "no dominating Err()==nil check"))
+						}
+						return false
+					}():
+					case core.IsNilConst(sv):
+						if !known(r.Block()) {
+							return false
+						}
+					default:
+						return false
+					}
+				}
+			}
+		}
+		ok := true
+		for _, fn := range core.WithNested(g) {
+			core.Instrs(fn, func(in ssa.Instruction) {
+				switch x := in.(type) {
+				case *ssa.Store:
+					if _, isLocal := x.Addr.(*ssa.Alloc); isLocal || p.FreshIn(x.Addr) {
+						return
+					}
+					if !known(x.Block()) {
+						ok = false
+					}
+				case *ssa.MapUpdate:
+					if p.FreshIn(x.Map) {
+						return
+					}
+					if !known(x.Block()) {
+						ok = false
+					}
+				case ssa.CallInstruction:
+					if x.Common().StaticCallee() == exec && !known(x.Block()) {
+						ok = false
+					}
+				}
+			})
+		}
+		return ok
+	}
+	judge := func(f *ssa.Function, origin string, al *ssa.Alloc, uses []resUse) {
+		n := 0
+		for _, u := range uses {
+			n++
+			local := al != nil && checkedAt(al, u.in.Block())
+			switch u.kind {
+			case "out":
+				c.R.Add("ERRFLOW-E1", fmt.Sprintf("%s|result of %s|read .out#%d", core.FuncName(f), origin, n), core.FuncName(f), p.InstrPos(u.in), local,
+					"outputs of a Result are read only where Err()==nil on that Result dominates", ternary(local, "dominated by Err()==nil", "no dominating Err()==nil check"))
+			case "handon":
+				nm := "(dynamic)"
+				if u.callee != nil {
+					nm = core.FuncName(u.callee)
+				}
+				inside := !local && calleeGuards(u.callee, u.arg, 0)
+				c.R.Add("ERRFLOW-E1", fmt.Sprintf("%s|result of %s|passed to %s", core.FuncName(f), origin, nm), core.FuncName(f), p.InstrPos(u.in), local || inside,
+					"a Result is handed on (output mapper, adapters, value-set loaders) only where Err()==nil on it dominates, or to a function that faithfully reports the Result's error and changes no state before it is known to be nil",
+					ternary(local, "dominated by Err()==nil", ternary(inside, "the callee is error-faithful (returns the Result's error; no store or execution before it is known to be nil)", "no dominating Err()==nil check, and the callee is not error-faithful for this Result")))
+			}
+		}
+	}
+	for _, f := range p.ArgFuncs() {
+		core.Instrs(f, func(in ssa.Instruction) {
+			switch x := in.(type) {
+			case *ssa.Alloc:
+				if core.NamedOf(x.Type()) != "Result" {
+					return
+				}
+				// a Result variable that receives the result of a call returning Result
+				fromCall := false
+				var origin string
+				for _, ref := range *x.Referrers() {
+					if st, ok := ref.(*ssa.Store); ok && st.Addr == x {
+						if cl, ok := st.Val.(*ssa.Call); ok {
+							if cal := cl.Common().StaticCallee(); cal != nil && p.InTarget(cal) && returnsResult(cal) {
+								fromCall = true
+								origin = core.FuncName(cal)
 							}
 						}
 					}
 				}
+				if !fromCall {
+					return
+				}
+				judge(f, origin, x, usesOfLoc(x))
+				c.R.Func(core.FuncName(f))
+			case *ssa.Call:
+				// a Result used straight from the call (never stored in a variable, so never checked here)
+				cal := x.Common().StaticCallee()
+				if cal == nil || !p.InTarget(cal) || !returnsResult(cal) {
+					return
+				}
+				if cal != exec && cal != call {
+					return // adapters re-shape a Result their caller is responsible for; executions produce new ones
+				}
+				stored := false
+				for _, ref := range *x.Referrers() {
+					if st, ok := ref.(*ssa.Store); ok && st.Val == ssa.Value(x) {
+						if _, isAl := st.Addr.(*ssa.Alloc); isAl {
+							stored = true
+						}
+					}
+				}
+				if stored {
+					return
+				}
+				if uses := usesOfVal(x); len(uses) > 0 {
+					judge(f, core.FuncName(cal), nil, uses)
+					c.R.Func(core.FuncName(f))
+				}
 			}
-			c.R.Func(core.FuncName(f))
 		})
 	}
 	// exported FromResult-like functions: a Result parameter's .out is read only after Err()==nil
